@@ -694,26 +694,51 @@ Proof.
   evis. cbn [Z.eqb orb andb]. reflexivity.
 Qed.
 
-(* the first token of the selector of a nested ruleset (not covered: a selector that starts with a delimiter such as
-   '.', '&' or '>') *)
-Definition nest_first (t : ttype) : bool := is_t t TIdent || is_t t THash || is_t t TColon || is_t t TLeftBracket.
+(* the first token of the selector of a nested ruleset: an identifier, a hash, ':' , '[' or a delimiter other than
+   '*' ('*' takes the IE-hack path of parseDeclarationList, the known finding conservation-iehack) *)
+Definition nest_first (x : tok) : bool :=
+  is_t (fst x) TIdent || is_t (fst x) THash || is_t (fst x) TColon || is_t (fst x) TLeftBracket
+  || (is_t (fst x) TDelim && negb (hd0 (snd x) =? 42)).
+
+Lemma lexes_nonempty z t b ts : css_inv z -> lexes z ((t, b) :: ts) -> exists c b', b = c :: b'.
+Proof.
+  intros Hi Hl. destruct (lexes_cons _ _ _ _ Hl) as (z' & Hn & _ & He).
+  destruct (css_next_step z Hi) as [(_ & Hn')|(ty & b0 & z2 & Hn' & _ & _ & _ & Hp & Hlen & _)]; rewrite Hn in Hn'.
+  - assert (t = TError) by congruence. subst. discriminate.
+  - assert (b0 = b) by congruence. subst b0. destruct b as [|c b']; [|eauto]. change (len (@nil Z)) with 0 in Hlen. lia.
+Qed.
 
 Lemma nest_head p st0 o1 t1 b1 ts : wf_state p (SQualifiedRuleDeclarationList :: st0) (optws o1 ++ (t1, b1) :: ts) ->
-  nest_first t1 = true ->
+  nest_first (t1, b1) = true ->
   exists p0, parse_next p = declaration_loop (next_fuel p) (next_fuel p) p0 /\ css_inv (pl p0) /\ lexes (pl p0) ts /\
     pbuf p0 = [(t1, b1)] /\ ptt p0 = t1 /\ pdata p0 = b1 /\ pst p0 = SQualifiedRuleDeclarationList :: st0 /\
     plevel p0 = tok_lv 0 t1 /\ prevend p0 = false /\ keepws p0 = false /\ isstyle p0 = true /\ perr p0 = false.
 Proof.
-  intros (Hi & Hl & Hst & Hlv & Hpe & Hkw & Hsty) Hfirst.
+  intros (Hi & Hl & Hst & Hlv & Hpe & Hkw & Hsty) Hfirst. unfold nest_first in Hfirst. cbn [fst snd] in Hfirst.
   assert (Hp1 : plain_tok t1 = true) by (destruct t1; try discriminate Hfirst; reflexivity).
   unfold parse_next. cbv zeta. change (prevend (set_err p false)) with (prevend p). rewrite Hpe.
   destruct (pop_token_ows (next_fuel p) true (set_err p false) o1 t1 b1 ts Hi Hkw Hl Hp1 (next_fuel_pos p Hi))
     as (z1 & Hpop & Hl1 & Hi1).
+  assert (Hne : exists c b', b1 = c :: b').
+  { destruct o1 as [wb|]; cbn [optws app] in Hl.
+    - destruct (lexes_cons _ _ _ _ Hl) as (z0 & Hn0 & Hl0 & _). apply (lexes_nonempty z0 t1 b1 ts (css_inv_next _ _ _ _ Hi Hn0) Hl0).
+    - apply (lexes_nonempty _ _ _ _ Hi Hl). }
   rewrite Hpop. cbn [pbind fst snd]. cbn [set_tok relex set_err pst]. rewrite Hst.
   unfold parse_qualified_rule_declaration_list.
   rewrite skip_semicolons_none by (cbn [set_tok ptt]; destruct t1; try discriminate Hfirst; discriminate).
   cbn [pbind]. cbv zeta.
-  destruct t1; try discriminate Hfirst; cbn [set_tok ptt]; evis; cbn [orb];
+  destruct (is_t t1 TDelim) eqn:Ed.
+  - apply is_t_eq in Ed. subst t1. cbn in Hfirst. apply negb_true_iff in Hfirst. destruct Hne as (c & b' & ->). cbn [hd0] in Hfirst.
+    cbn [set_tok ptt]; evis; cbn [orb];
+    unfold parse_declaration_list; cbn [set_tok ptt]; evis; cbn [pbind];
+    (rewrite skip_semicolons_none by (cbn; discriminate)); cbn [pbind set_tok ptt pdata]; evis. rewrite peekz_0. cbn [of_opt pbind].
+    rewrite Hfirst. cbn [pbind]; cbv zeta; cbn [set_tok ptt]; evis;
+    cbn [orb andb isstyle set_tok relex set_err]; rewrite ?Hsty; cbn [orb andb];
+    unfold parse_declaration; cbn [set_tok ptt pdata]; evis; cbv beta iota;
+    (eexists; split; [reflexivity|];
+     cbn [set_level set_buf set_tok relex set_err pl pbuf ptt pdata pst plevel prevend keepws isstyle perr];
+     split; [exact Hi1|]; split; [exact Hl1|]; unfold tok_lv; cbn; rewrite ?Hlv; repeat split; assumption).
+  - destruct t1; try discriminate Hfirst; try discriminate Ed; cbn [set_tok ptt]; evis; cbn [orb];
     unfold parse_declaration_list; cbn [set_tok ptt]; evis; cbn [pbind];
     (rewrite skip_semicolons_none by (cbn; discriminate)); cbn [pbind set_tok ptt]; evis; cbn [pbind orb]; cbv zeta; cbn [set_tok ptt]; evis;
     cbn [orb andb isstyle set_tok relex set_err]; rewrite ?Hsty; cbn [orb andb];
@@ -726,7 +751,7 @@ Qed.
 (* a nested ruleset: selector tokens, '{' *)
 Lemma step_nested p st0 o1 t1 b1 (sl : list wtok) o2 lb ts :
   wf_state p (SQualifiedRuleDeclarationList :: st0) (src_toks ((o1, (t1, b1)) :: sl) ++ optws o2 ++ (TLeftBrace, lb) :: ts) ->
-  nest_first t1 = true -> toks_ok 0 ((o1, (t1, b1)) :: sl) -> lv_after 0 ((o1, (t1, b1)) :: sl) = 0 ->
+  nest_first (t1, b1) = true -> toks_ok 0 ((o1, (t1, b1)) :: sl) -> lv_after 0 ((o1, (t1, b1)) :: sl) = 0 ->
   exists p', parse_next p = POk (GBeginRuleset, p') /\ ptt p' = TWhitespace /\ pdata p' = [] /\
     pbuf p' = expected_sel ((o1, (t1, b1)) :: sl) /\ perr p' = false /\
     wf_state p' (SQualifiedRuleDeclarationList :: SQualifiedRuleDeclarationList :: st0) ts.
@@ -762,13 +787,78 @@ Proof.
   split; [rewrite Hlv2, Hlv; exact Hlv0|]. split; [rewrite S6; exact Hpe0|]. split; [rewrite S1; exact Hkw0|rewrite S7; exact Hsty0].
 Qed.
 
+(* --- top-level comments, CDO and CDC ------------------------------------------------------------------------------------ *)
+(* popToken(true) at the top level hands a comment out *)
+Lemma pop_token_comment F p o cb ts : keepws p = false -> len (pst p) = 1 -> (2 <= F)%nat ->
+  lexes (pl p) (optws o ++ (TComment, cb) :: ts) -> css_inv (pl p) ->
+  exists z', pop_token F true p = POk (TComment, cb, relex p z' (isws o) true) /\ lexes z' ts /\ css_inv z'.
+Proof.
+  intros Hkw Hst HF Hl Hi. destruct o as [wb|]; cbn [optws app isws] in *.
+  - destruct (lexes_cons _ _ _ _ Hl) as (z1 & Hn1 & Hl1 & _).
+    destruct (lexes_cons _ _ _ _ Hl1) as (z2 & Hn2 & Hl2 & _).
+    exists z2. split; [|split; [exact Hl2|eapply css_inv_next; [|exact Hn2]; eapply css_inv_next; eassumption]].
+    unfold pop_token, lex_next. cbn [set_prevcomment set_prevws pl]. rewrite Hn1. cbn [pbind fst snd].
+    destruct F as [|[|f]]; try lia. rewrite pop_loop_eq. cbn [set_pl set_prevcomment set_prevws keepws]. rewrite Hkw.
+    change (is_t TWhitespace TWhitespace) with true. change (is_t TWhitespace TComment) with false. cbn [negb andb orb].
+    unfold lex_next. cbn [set_pl set_prevcomment set_prevws pl]. rewrite Hn2. cbn [pbind fst snd]. rewrite pop_loop_eq.
+    change (is_t TComment TComment) with true. change (is_t TComment TWhitespace) with false. rewrite orb_true_r.
+    cbn [set_pl set_prevcomment set_prevws pst andb]. rewrite Hst. cbn [Z.eqb Pos.eqb].
+    destruct p; reflexivity.
+  - destruct (lexes_cons _ _ _ _ Hl) as (z1 & Hn1 & Hl1 & _).
+    exists z1. split; [|split; [exact Hl1|eapply css_inv_next; eassumption]].
+    unfold pop_token, lex_next. cbn [set_prevcomment set_prevws pl]. rewrite Hn1. cbn [pbind fst snd].
+    destruct F as [|f]; try lia. rewrite pop_loop_eq.
+    change (is_t TComment TComment) with true. change (is_t TComment TWhitespace) with false. rewrite orb_true_r.
+    cbn [set_pl set_prevcomment set_prevws pst andb]. rewrite Hst. cbn [Z.eqb Pos.eqb].
+    destruct p; reflexivity.
+Qed.
+
+Lemma next_fuel_2 p : (2 <= next_fuel p)%nat.
+Proof. unfold next_fuel. lia. Qed.
+
+Lemma step_comment p o cb ts : wf_state p [SStylesheet] (optws o ++ (TComment, cb) :: ts) ->
+  exists p', parse_next p = POk (GComment, p') /\ ptt p' = TComment /\ pdata p' = cb /\ perr p' = false /\
+    wf_state p' [SStylesheet] ts.
+Proof.
+  intros (Hi & Hl & Hst & Hlv & Hpe & Hkw & Hsty).
+  unfold parse_next. cbv zeta. change (prevend (set_err p false)) with (prevend p). rewrite Hpe.
+  destruct (pop_token_comment (next_fuel p) (set_err p false) o cb ts Hkw ltac:(cbn [set_err pst]; rewrite Hst; reflexivity)
+              (next_fuel_2 p) Hl Hi) as (z' & Hpop & Hl' & Hi').
+  rewrite Hpop. cbn [pbind fst snd]. cbn [set_tok relex set_err pst]. rewrite Hst.
+  unfold parse_stylesheet. cbn [set_tok ptt]. evis. cbn [orb].
+  eexists. split; [reflexivity|]. cbn [set_tok relex set_err ptt pdata perr].
+  split; [reflexivity|]. split; [reflexivity|]. split; [reflexivity|].
+  unfold wf_state. cbn [set_tok relex set_err pl pst plevel prevend keepws isstyle].
+  split; [exact Hi'|]. split; [exact Hl'|]. auto.
+Qed.
+
+Definition is_cd (t : ttype) : bool := is_t t TCDO || is_t t TCDC.
+
+Lemma step_cd p o t b ts : wf_state p [SStylesheet] (optws o ++ (t, b) :: ts) -> is_cd t = true ->
+  exists p', parse_next p = POk (GToken, p') /\ ptt p' = t /\ pdata p' = b /\ perr p' = false /\
+    wf_state p' [SStylesheet] ts.
+Proof.
+  intros (Hi & Hl & Hst & Hlv & Hpe & Hkw & Hsty) Hcd.
+  assert (Hp : plain_tok t = true) by (destruct t; try discriminate Hcd; reflexivity).
+  unfold parse_next. cbv zeta. change (prevend (set_err p false)) with (prevend p). rewrite Hpe.
+  destruct (pop_token_ows (next_fuel p) true (set_err p false) o t b ts Hi Hkw Hl Hp (next_fuel_pos p Hi)) as (z' & Hpop & Hl' & Hi').
+  rewrite Hpop. cbn [pbind fst snd]. cbn [set_tok relex set_err pst]. rewrite Hst.
+  unfold parse_stylesheet. cbn [set_tok ptt]. unfold is_cd in Hcd. rewrite Hcd.
+  eexists. split; [reflexivity|]. cbn [set_tok relex set_err ptt pdata perr].
+  split; [reflexivity|]. split; [reflexivity|]. split; [reflexivity|].
+  unfold wf_state. cbn [set_tok relex set_err pl pst plevel prevend keepws isstyle].
+  split; [exact Hi'|]. split; [exact Hl'|]. auto.
+Qed.
+
 (* --- the grammar and the units it denotes ------------------------------------------------------------------------ *)
 (* w1 property w2 ':' value-tokens (each with the whitespace before it) w4 ';' *)
 Record decl_t := mkDecl { d_w1 : ws_t; d_prop : list Z; d_w2 : ws_t; d_vals : list wtok; d_w4 : ws_t }.
 
 (* a stylesheet in document order: a ruleset is  EOpen selector-tokens w2 '{'  ...  EClose w3 '}'  with declarations and
    (nested) rulesets between them *)
-Inductive ev := EDecl (d : decl_t) | EOpen (sel : list wtok) (w2 : ws_t) | EClose (w3 : ws_t).
+Inductive ev := EDecl (d : decl_t) | EOpen (sel : list wtok) (w2 : ws_t) | EClose (w3 : ws_t)
+  | EComment (w : ws_t) (b : list Z)                 (* a comment at the top level *)
+  | EToken (w : ws_t) (t : ttype) (b : list Z).      (* CDO or CDC at the top level *)
 
 Definition decl_toks (d : decl_t) : list tok :=
   optws (d_w1 d) ++ (TIdent, d_prop d) :: optws (d_w2 d) ++ (TColon, [58]) :: src_toks (d_vals d) ++
@@ -778,19 +868,23 @@ Definition ev_toks (e : ev) : list tok :=
   | EDecl d => decl_toks d
   | EOpen sel w2 => src_toks sel ++ optws w2 ++ [(TLeftBrace, [123])]
   | EClose w3 => optws w3 ++ [(TRightBrace, [125])]
+  | EComment w b => optws w ++ [(TComment, b)]
+  | EToken w t b => optws w ++ [(t, b)]
   end.
 
 Definition decl_ok (d : decl_t) : Prop := d_vals d <> [] /\ toks_ok 0 (d_vals d) /\ lv_after 0 (d_vals d) = 0.
 (* a selector at the top level / of a nested ruleset *)
-Definition sel_ok (first : ttype -> bool) (l : list wtok) : Prop :=
-  match l with x :: _ => first (fst (snd x)) = true | [] => False end /\ toks_ok 0 l /\ lv_after 0 l = 0.
+Definition sel_ok (first : tok -> bool) (l : list wtok) : Prop :=
+  match l with x :: _ => first (snd x) = true | [] => False end /\ toks_ok 0 l /\ lv_after 0 l = 0.
 (* declarations only inside a ruleset, every '}' closes an open ruleset, all closed at the end *)
 Fixpoint evs_ok (depth : nat) (l : list ev) : Prop :=
   match l with
   | [] => depth = O
   | EDecl d :: r => (0 < depth)%nat /\ decl_ok d /\ evs_ok depth r
-  | EOpen sel _ :: r => sel_ok (match depth with O => sel_first | S _ => nest_first end) sel /\ evs_ok (S depth) r
+  | EOpen sel _ :: r => sel_ok (match depth with O => fun x => sel_first (fst x) | S _ => nest_first end) sel /\ evs_ok (S depth) r
   | EClose _ :: r => (0 < depth)%nat /\ evs_ok (pred depth) r
+  | EComment _ _ :: r => depth = O /\ evs_ok depth r
+  | EToken _ t _ :: r => depth = O /\ is_cd t = true /\ evs_ok depth r
   end.
 
 (* what the caller sees of one call: grammar type, token type, data, and Values() for the units that set them *)
@@ -807,6 +901,8 @@ Definition ev_unit (e : ev) : unit_t :=
   | EDecl d => (GDeclaration, TIdent, to_lower (d_prop d), expected_vals (d_vals d))
   | EOpen sel _ => (GBeginRuleset, TWhitespace, [], expected_sel sel)
   | EClose _ => (GEndRuleset, TRightBrace, [125], [])
+  | EComment _ b => (GComment, TComment, b, [])
+  | EToken _ t b => (GToken, t, b, [])
   end.
 
 Definition last_state (p : parser) (tr : list (gtype * parser)) : parser :=
@@ -840,7 +936,7 @@ Proof.
       - cbn [map]. rewrite Hview, Hv, Hu. reflexivity.
       - constructor; [exact He|exact Hne].
       - rewrite last_state_cons. exact Hlast. }
-    destruct e as [[w1 prop w2 vl w4]|sel w2|w3]; cbn [evs_ok] in Hok; cbn [map concat ev_toks] in Hw.
+    destruct e as [[w1 prop w2 vl w4]|sel w2|w3|wc cb|wt tt tb]; cbn [evs_ok] in Hok; cbn [map concat ev_toks] in Hw.
     + destruct Hok as (Hd & (Hv & Hp & Hq) & Hok). cbn [d_vals] in *.
       destruct depth as [|depth]; [lia|]. unfold stack in Hw. cbn [repeat app] in Hw.
       unfold decl_toks in Hw. cbn [d_w1 d_prop d_w2 d_vals d_w4] in Hw. repeat (rewrite <- app_assoc in Hw; cbn [app] in Hw).
@@ -857,6 +953,14 @@ Proof.
       repeat (rewrite <- app_assoc in Hw; cbn [app] in Hw).
       destruct (step_end p _ w3 [125] _ Hw) as (p1 & Hn & Ht & Hdd & He & Hw1).
       eapply (Hcons _ p1 _ depth Hn eq_refl He Hw1 Hok). unfold view. cbn [fst snd ev_unit]. rewrite Ht, Hdd. reflexivity.
+    + destruct Hok as (Hd & Hok). subst depth. unfold stack in Hw. cbn [repeat app] in Hw.
+      repeat (rewrite <- app_assoc in Hw; cbn [app] in Hw).
+      destruct (step_comment p wc cb _ Hw) as (p1 & Hn & Ht & Hdd & He & Hw1).
+      eapply (Hcons _ p1 _ O Hn eq_refl He Hw1 Hok). unfold view. cbn [fst snd ev_unit]. rewrite Ht, Hdd. reflexivity.
+    + destruct Hok as (Hd & Hcd & Hok). subst depth. unfold stack in Hw. cbn [repeat app] in Hw.
+      repeat (rewrite <- app_assoc in Hw; cbn [app] in Hw).
+      destruct (step_cd p wt tt tb _ Hw Hcd) as (p1 & Hn & Ht & Hdd & He & Hw1).
+      eapply (Hcons _ p1 _ O Hn eq_refl He Hw1 Hok). unfold view. cbn [fst snd ev_unit]. rewrite Ht, Hdd. reflexivity.
 Qed.
 
 Lemma parse_run_snoc : forall a p tr1 r, parse_run a p = POk tr1 -> parse_next (last_state p tr1) = POk r ->
